@@ -40,25 +40,33 @@ ASSUMPTIONS = [
     "sub-pixel positions are affine in (pixel scales, origin): 4 scale pairs (isotropic, two anisotropic, small "
     "non-dyadic) x 3 origins (zero and two non-zero) suffice to expose a wrong or forgotten term",
     "iterative rule: per-pixel decisions are independent, so masks with <= 6 cells (quick) expose every combination "
-    "of stopping levels of neighbouring pixels; pixels whose decision depends on a ratio within 1e-9 of the "
-    "threshold, on |difference| within 1e-9 of the tolerance, or on the sign of a value that is zero only up to "
-    "rounding are excluded (counted in the outcome string as 'skip')",
+    "of stopping levels of neighbouring pixels; a pixel is excluded (outcome string 'skip<..%') when its decision "
+    "would change under the uncertainty of the reference level values (spread under +-1e-12 position shifts + 1e-14 "
+    "relative + summation rounding), when the ratio lies within 1e-9 of the threshold or |difference| within 1e-9 of "
+    "the tolerance, or when a level value is zero only up to rounding (sign of 'previous value positive' undecidable)",
     "program count: %d distinct functions = 27 affine a*y+b*x+c (a,b,c in {-1,0,2}; includes 3 constants) + %d "
     "non-linear (y*x, |x|, 2 Gaussians, 2 half-plane-zero ReLUs, 2 negative-valued, sin*cos, peaked 1/(0.1+r^2), r); "
     "each is also called through 3 method styles (bare self-named, bare obj-named, stacked on to_array)"
     % (N_PROGRAMS, len(NONLIN)),
 ]
 BOUNDS = {
-    "quick": "masks with <= 9 cells (3187, all shapes incl. 1xN/Nx1); G: 12 geometries, sub-size maps = uniform 1..4 "
-    "(int form) + 2 cyclic 1..4 patterns (array form) on 2 main geometries, one of them additionally with every map "
-    "in {1,2,3}^n for n<=4 unmasked pixels, the 10 other geometries with uniform 3 + cyclic; F: 38 programs, maps {1, all-ones array, 2, 3, cyclic}, all entry points on 1 main "
-    "geometry (2 main + 10 light geometries for masks <= 6 cells); I: masks <= 6 cells x 2 geometries x 14 programs "
-    "x 3 schedules x 3 fractional accuracies x 2 absolute tolerances",
-    "thorough": "as quick with uniform maps 1..8, every map in {1,2,3}^n for n<=5 on the main geometries and n<=4 on "
-    "all 12, F with all entry points on all 12 geometries for every mask, I on masks <= 9 cells x 4 geometries",
+    "quick": "masks with <= 9 cells (3187, all shapes incl. 1xN/Nx1) x 12 geometries (4 scale pairs x 3 origins). "
+    "G (sampler tables, positions, binning of labelled values, affine exactness, GridsDataset): geometry #4 with "
+    "uniform 1..4 (int form) + 2 cyclic 1..4 patterns + every map in {1,2,3}^n for n<=4 unmasked pixels (array form), "
+    "geometry #8 with uniform 1..4 + 2 cyclic patterns, the other 10 geometries with uniform 3 + cyclic. "
+    "F (38 programs): maps {1, all-ones array, 2, 3, cyclic} x entry points {bare/obj-named/stacked decorated method "
+    "on Grid2D.from_mask / Grid2D(values) / Grid2D.uniform / grid.native, Grid2DOverSampled, array_via_func_from with "
+    "and without obj, config-driven adaptive scheme (2 configs)} on geometry #4 for every mask and on geometry #8 for "
+    "masks <= 6 cells; cyclic map x {bare decorated method, array_via_func_from} on the other 10 geometries for "
+    "masks <= 6 cells. I: masks <= 6 cells x geometries {#0, #4} x 14 programs x schedules {[2,4],[2,4,8],[3,5,2]} x "
+    "fractional accuracies {0.5,0.99,0.9999} x absolute tolerances {None,0.01}, direct call + decorated call",
+    "thorough": "as quick with uniform maps 1..8, every map in {1,2,3}^n for n<=5 on geometries #4/#8 and n<=4 on "
+    "the other 10, F with all entry points (+ uniform 4 and 8) on all 12 geometries for every mask, I on masks <= 9 "
+    "cells x geometries {#0,#4,#8,#10}",
 }
 
 MAIN_GEOMS = (4, 8)  # indexes into geoms(): anisotropic scales with non-zero origins
+IT_GEOMS = (0, 4)  # iterative scheme, quick tier: unit scales / zero origin (exact zeros on the axes) + anisotropic
 
 
 def geoms(seed):
@@ -173,7 +181,7 @@ ADAPT_CFG = {"A": ([0.75, 1.6], [3, 2, 1]), "B": ([1.2], [4, 2])}
 def cases(tier, seed):
     t = "q" if tier == "quick" else "t"
     ng = 12
-    it_geoms = MAIN_GEOMS if tier == "quick" else (0, 4, 8, 10)
+    it_geoms = IT_GEOMS if tier == "quick" else (0, 4, 8, 10)
     for (h, w, bits) in dom.all_mask_cases(9):
         cells = h * w
         for gi in range(ng):
@@ -588,14 +596,22 @@ def _decide_core(prev, cur, frac, tol):
     return ok
 
 
-def _decide(prev, prev_zero, prev_eps, cur, cur_zero, cur_eps, frac, tol):
-    """Robust decision: values that are not exact (robust) zeros are perturbed by +- their uncertainty; any
-    disagreement (or a tie band hit) => None."""
-    ps = (prev,) if prev_zero else (prev - prev_eps, prev, prev + prev_eps)
-    cs = (cur,) if cur_zero else (cur - cur_eps, cur, cur + cur_eps)
+def _pert(val, exact_zero, amb, eps):
+    """Admissible values of a level value as the library may have computed it."""
+    if exact_zero:
+        return (0.0,)
+    out = (val - eps, val, val + eps)
+    if amb:  # zero under some +-1e-12 position shifts, non-zero under others: the library may see an exact 0.0
+        out += (0.0,)
+    return out
+
+
+def _decide(prev, cur, frac, tol):
+    """Robust decision; prev / cur are (value, robust-exact-zero, zero-only-up-to-rounding, uncertainty).
+    Any disagreement between admissible values (or a tie band hit) => None."""
     res = set()
-    for a in ps:
-        for b in cs:
+    for a in _pert(*prev):
+        for b in _pert(*cur):
             res.add(_decide_core(a, b, frac, tol))
     if len(res) != 1:
         return None
@@ -604,29 +620,24 @@ def _decide(prev, prev_zero, prev_eps, cur, cur_zero, cur_eps, frac, tol):
 
 def ref_iterate(lv, steps, frac, tol, n):
     """Per pixel: (expected value, index of the schedule entry whose value is returned, or 'skip').
-    lv[s] = (value, robust-exact-zero flag, ambiguous flag, uncertainty) per pixel for sub-size s."""
+    lv[s] = (value, robust-exact-zero flag, zero-only-up-to-rounding flag, uncertainty) per pixel for sub-size s."""
     exp = np.zeros(n)
     stop = []
     for k in range(n):
-        prev, pz, pa, pe = (lv[1][i][k] for i in range(4))
+        prev = tuple(lv[1][i][k] for i in range(4))
         chosen = None
         for idx, s in enumerate(steps[:-1]):
-            cur, cz, ca, ce = (lv[s][i][k] for i in range(4))
-            if pa or ca:
-                chosen = "skip"
-                break
-            d = _decide(prev, pz, pe, cur, cz, ce, frac, tol)
+            cur = tuple(lv[s][i][k] for i in range(4))
+            d = _decide(prev, cur, frac, tol)
             if d is None:
                 chosen = "skip"
                 break
             if d:
                 chosen = idx
                 break
-            prev, pz, pa, pe = cur, cz, ca, ce
+            prev = cur
         if chosen is None:
             chosen = len(steps) - 1
-            if lv[steps[-1]][2][k]:
-                chosen = "skip"
         stop.append(chosen)
         if chosen != "skip":
             exp[k] = lv[steps[chosen]][0][k]
@@ -663,10 +674,14 @@ def run_I(aa, v, m, g, gi, seed, t):
             anyzero = np.any(vs == 0, axis=0)
             spread = vs.max(axis=0) - vs.min(axis=0)
             eps = spread + 1e-14 * np.abs(base) + 1e-15 * np.abs(raw[0]).max(axis=1)
-            amb = (anyzero & ~allzero) | (spread > 1e-6 * (1.0 + np.abs(base)))
+            amb = anyzero & ~allzero
             lv[s] = (base, allzero, amb, eps)
         centre_all_zero = bool(np.all(lv[1][1]))
-        centre_ambiguous = bool(np.any(lv[1][2])) and bool(np.all(lv[1][1] | lv[1][2]))
+        if not centre_all_zero and bool(np.all(lv[1][1] | lv[1][2])):
+            # every sub-size-one value is zero at least up to rounding: whether the library's `not np.any(...)` early
+            # return triggers depends on its own rounding; resolve this one branch with the library's own pixel centres
+            lg = _a(mask.derive_grid.unmasked)
+            centre_all_zero = not np.any(feval(name, lg[:, 0], lg[:, 1], par))
         for ci, (steps, frac, tol) in enumerate(configs):
             tag = "f=%s steps=%s frac=%s tol=%s" % (name, steps, frac, tol)
             prof = P(name, par)
@@ -675,9 +690,6 @@ def run_I(aa, v, m, g, gi, seed, t):
             got = _a(res)
             v.ok(got.shape == (n,), "iterate:result-shape", lambda: "%s shape %s" % (tag, got.shape))
             if got.shape != (n,):
-                continue
-            if centre_ambiguous:
-                nskip += n
                 continue
             exp, stop = ref_iterate(lv, steps, frac, tol, n)
             if centre_all_zero:
